@@ -54,6 +54,10 @@ var c15CTs = []c15CT{
 var c15Bodies = []struct{ name, text string }{
 	{"json object", `{"j":"json-j","x":"json-x","l":["jl1","jl2"],"m":["jm1"]}`},
 	{"json {}", `{}`},
+	{"json object followed by a newline", "{\"j\":\"json-j\",\"x\":\"json-x\"}\n"},
+	{"json object between blanks and CRLF", " \r\n\t{\"j\":\"json-j\",\"x\":\"json-x\"} \r\n"},
+	{"json {} followed by a newline", "{}\n"},
+	{"two json documents", `{"j":"json-j"}{"x":"json-x"}`},
 	{"json truncated", `{"j":"json-j","x":`},
 	{"json array", `[1]`},
 	{"json null", `null`},
